@@ -160,7 +160,18 @@ def molecules() -> dict:
             continue
         if c.n_atoms >= 2 and c.reference_bonds.number_of_edges() > 0:
             _MOLS[os.path.basename(f)] = (atoms.get_chemical_symbols(), atoms.get_positions().flatten())
+    # a class of molecule the test data lack: a non-planar ring with a BARE heteroatom (tetrahydrofuran; a standard
+    # force-field geometry).  Rotatable ring bonds whose second atom carries no substituent have an EMPTY fragment.
+    _MOLS["thf-embedded"] = (list(THF[0]), np.array(THF[1], dtype=float).flatten())
     return _MOLS
+
+
+THF = (["C", "C", "C", "O", "C", "H", "H", "H", "H", "H", "H", "H", "H"],
+       [[-0.389383, 0.951639, -0.258458], [0.963470, 0.419805, 0.139736], [0.803406, -1.062808, -0.117457],
+        [-0.576345, -1.376838, 0.119188], [-1.310470, -0.148525, 0.222318], [-0.447249, 1.037626, -1.349999],
+        [-0.625084, 1.926695, 0.175601], [1.792936, 0.863201, -0.417114], [1.131943, 0.598049, 1.208403],
+        [1.027981, -1.310741, -1.160361], [1.437653, -1.673420, 0.531207], [-1.580095, -0.008217, 1.274540],
+        [-2.228761, -0.216465, -0.367603]])
 
 
 def fresh(name: str):
@@ -707,7 +718,7 @@ def pred_axis_aligned(name: str, which: int, axis: int, sign: float, amount: flo
     return None
 
 
-def pred_perturb_sequence(name: str, seed: int, n_moves: int = 6) -> tuple[str, str] | None:
+def pred_perturb_sequence(name: str, seed: int, n_moves: int = 6, angles: bool = True) -> tuple[str, str] | None:
     """consecutive molecular moves of the step taker itself (large rotations about several bonds at once, as the example
     scripts configure it) on ONE object: each move rotates fragments of the REFERENCE bonding rigidly, so every reference
     bond length and every bond angle is what it was — however folded the chain has become by then"""
@@ -734,7 +745,9 @@ def pred_perturb_sequence(name: str, seed: int, n_moves: int = 6) -> tuple[str, 
             return ("perturb:non-finite", f"move {k + 1} on {name} (seed {seed}) produced non-finite coordinates")
         b1, a1 = blen(p1), _angles(G0, p1)
         db = float(np.max(np.abs(b1 - b0)))
-        da = max(abs(a1[q] - a0[q]) for q in a0) if a0 else 0.0
+        # (a rotation about a RING bond carries the substituents of one ring atom round while the ring stays: bond
+        #  lengths are what they were, angles between a ring bond and a substituent are not — lengths only there)
+        da = (max(abs(a1[q] - a0[q]) for q in a0) if a0 else 0.0) if angles else 0.0
         if db > 1e-7 or da > 1e-4:
             return ("perturb:not-rigid-after-history",
                     f"move {k + 1} of a sequence on {name} (seed {seed}, rotations up to 180 degrees about "
@@ -759,6 +772,13 @@ def predicates(ctx: Ctx) -> None:
         ctx.stats.case({"stream": "predicate-perturb-sequence", "molecule": name, "seed": sd}, True)
         if r:
             ctx.fail(r[0], r[1], {"perturb_sequence": [name, sd]})
+            break
+    for _k in range(ctx.scale(4, 20)):
+        sd = rng.randrange(10 ** 6)
+        r = pred_perturb_sequence("thf-embedded", sd, 8, angles=False)
+        ctx.stats.case({"stream": "predicate-perturb-sequence", "molecule": "thf-embedded", "seed": sd}, True)
+        if r:
+            ctx.fail(r[0], r[1], {"perturb_sequence": ["thf-embedded", sd, 8, False]})
             break
     deep = 4 if getattr(ctx, "deep_search", False) else 1
     # corpus / boundary first
@@ -843,7 +863,7 @@ def predicates(ctx: Ctx) -> None:
     # sequences of moves on one long-lived object (ring molecules included)
     names = sorted(molecules())
     if not (ctx.thorough or deep > 1):
-        rings = [n for n in names if any(t in n for t in ("benzene", "cyclo", "salicyl", "paracetamol", "azo"))]
+        rings = [n for n in names if any(t in n for t in ("thf", "benzene", "cyclo", "salicyl", "paracetamol", "azo"))]
         names = sorted(set(rings[:4] + rng.sample(names, min(2, len(names)))))
     for nm in names:
         for _ in range(ctx.scale(1, 4) * deep):
